@@ -719,6 +719,90 @@ theorem constructDispatch_eq (frame : Bytes) : Codec.constructDispatch frame = M
   | rfl
 
 
+/-! ### Response.construct: IndexError mapped; the error classes of the dispatch -/
+
+/-- **tie.** `Response.construct` (the `try … except IndexError` around `_construct`) as translated = the model's dispatch with
+    IndexError mapped to InvalidResponseException. -/
+theorem constructOuter_eq (frame : Bytes) :
+    Codec.constructOuter frame = Py.mapErr "IndexError" .invalidResponse (Model.constructDispatch frame) := by
+  first
+  | (
+       unfold Codec.constructOuter
+       rw [constructDispatch_eq]
+       first | done | (cases Py.mapErr "IndexError" Err.invalidResponse (Model.constructDispatch frame) <;> rfl))
+  | rfl
+
+theorem frameValidate_errs {f : Bytes} {e : Err} (h : frameValidate f = .error e) : e = .invalidFrame ∨ e = indexError := by
+  unfold frameValidate at h
+  split at h
+  · cases h; exact .inr rfl
+  · split at h
+    · cases h
+    · cases h; exact .inl rfl
+
+theorem idx_errs {l : Bytes} {i : Nat} {e : Err} (h : Py.idx l i = .error e) : e = indexError := by
+  unfold Py.idx at h; split at h <;> cases h; rfl
+
+theorem respValidate_errs {p : Bytes} {e : Err} (h : respValidate p = .error e) : e = .invalidResponse ∨ e = indexError := by
+  unfold respValidate at h
+  split at h
+  · cases h; exact .inr rfl
+  · split at h
+    · cases h; exact .inl rfl
+    · cases h
+
+theorem respClass_errs {f : Bytes} {e : Err} (h : respClass f = .error e) : e = indexError := by
+  unfold respClass at h
+  simp only [bind, Except.bind] at h
+  cases h9 : Py.idx f 9 with
+  | error e9 => rw [h9] at h; cases h; exact idx_errs h9
+  | ok x9 =>
+    rw [h9] at h
+    cases h10 : Py.idx f 10 with
+    | error e10 => rw [h10] at h; cases h; exact idx_errs h10
+    | ok x10 =>
+      rw [h10] at h
+      simp only at h
+      split at h
+      · cases h
+      · split at h
+        · cases h
+        · split at h
+          · cases h
+          · split at h
+            · cases h13 : Py.idx f 13 with
+              | error e13 => rw [h13] at h; cases h; exact idx_errs h13
+              | ok x13 =>
+                rw [h13] at h
+                simp only at h
+                split at h
+                · cases h
+                · split at h <;> cases h
+            · cases h
+
+theorem constructDispatch_errs {f : Bytes} {e : Err} (h : Model.constructDispatch f = .error e) :
+    e = .invalidFrame ∨ e = .invalidResponse ∨ e = indexError := by
+  unfold Model.constructDispatch at h
+  simp only [bind, Except.bind] at h
+  cases hv : frameValidate f with
+  | error e1 => rw [hv] at h; cases h; rcases frameValidate_errs hv with r | r <;> simp [r]
+  | ok u =>
+    rw [hv] at h
+    cases hc : respClass f with
+    | error e2 => rw [hc] at h; cases h; simp [respClass_errs hc]
+    | ok cls =>
+      rw [hc] at h
+      simp only at h
+      cases hb : validateUnlessProps cls f with
+      | error e3 =>
+        rw [hb] at h; cases h
+        unfold validateUnlessProps at hb
+        split at hb
+        · rcases respValidate_errs hb with r | r <;> simp [r]
+        · cases hb
+      | ok u2 => rw [hb] at h; cases h
+
+
 /-! ### Discover._get_device_version -/
 
 /-- **tie.** `Discover._get_device_version` as translated (the XML parser's verdict is an input) = the model's, for every datagram. -/
